@@ -2,15 +2,18 @@
 """Applies every seeded change under /verif/seeded/<name>/patch.diff to /repo, runs quick
 checks, restores /repo and writes /verif/seeded/RESULTS.md + RESULTS.json.
 
-usage: tools/seeded_report.py [--all-checks] [--tier quick|thorough] [name ...]
+usage: tools/seeded_report.py [--all-checks] [--tier quick|thorough] [--scratch [--jobs N]] [name ...]
 By default each change is run against the check of the property it targets plus the
 checks listed in its meta.json under "also_run".
+With --scratch nothing is applied to /repo: every change gets its own scratch worktree and copy
+of /verif (tools/trymutant_wt.sh), N of them side by side.
 """
 import json
 import os
 import subprocess
 import sys
 import time
+from concurrent.futures import ThreadPoolExecutor
 
 VERIF = os.path.dirname(os.path.dirname(os.path.abspath(__file__)))
 SEEDED = os.path.join(VERIF, "seeded")
@@ -27,10 +30,12 @@ def main():
     tier = "quick"
     if "--tier" in args:
         tier = args[args.index("--tier") + 1]
-    names = [a for a in args if not a.startswith("--") and a not in ("quick", "thorough")]
+    scratch = "--scratch" in args
+    jobs = int(args[args.index("--jobs") + 1]) if "--jobs" in args else 4
+    names = [a for a in args if not a.startswith("--") and a not in ("quick", "thorough") and not a.isdigit()]
     if not names:
         names = sorted(d for d in os.listdir(SEEDED) if os.path.isfile(os.path.join(SEEDED, d, "patch.diff")))
-    if sh(["git", "-C", "/repo", "diff", "--quiet"]).returncode != 0:
+    if not scratch and sh(["git", "-C", "/repo", "diff", "--quiet"]).returncode != 0:
         print("/repo has uncommitted changes; refusing to run")
         return 2
     results = {}
@@ -38,6 +43,38 @@ def main():
         prev = json.load(open(os.path.join(SEEDED, "RESULTS.json")))
     except (OSError, ValueError):
         prev = {}
+    def one_scratch(name):
+        d = os.path.join(SEEDED, name)
+        meta = json.load(open(os.path.join(d, "meta.json")))
+        checks = ALL if all_checks else [meta["property"]] + meta.get("also_run", [])
+        env = dict(os.environ)
+        env.setdefault("VERIF_SEED", "1")
+        env.update({"TIER": tier, "LINES_SHOWN": "14", "WIDTH": "400"})
+        t0 = time.time()
+        p = sh([os.path.join(VERIF, "tools", "trymutant_wt.sh"), name] + checks, cwd=VERIF, env=env)
+        row = {}
+        for cid in checks:
+            pre = "%s %s: " % (name, cid)
+            ls = [l[len(pre):] for l in p.stdout.splitlines() if l.startswith(pre)]
+            verdict = "rc=?"
+            if any(l.startswith("VIOLATION") for l in ls):
+                verdict = "VIOLATION"
+            elif any(l.startswith("INCONCLUSIVE") for l in ls):
+                verdict = "inconclusive"
+            elif any(l.startswith("HELD") for l in ls) or (ls and all(l.startswith("KNOWN") for l in ls)):
+                verdict = "held"
+            sigs = [l.strip().split(" ")[0].replace("signature=", "") for l in ls if l.strip().startswith("signature=")]
+            row[cid] = {"verdict": verdict, "signatures": sigs[:6]}
+        print(name, {c: v["verdict"] for c, v in row.items()}, "%.0fs" % (time.time() - t0), flush=True)
+        if "does not apply" in p.stdout:
+            return name, {"error": "patch does not apply"}
+        return name, {"property": meta["property"], "what": meta.get("what", ""), "checks": row}
+
+    if scratch:
+        with ThreadPoolExecutor(max_workers=jobs) as ex:
+            for name, r in ex.map(one_scratch, names):
+                results[name] = r
+        names = []
     for name in names:
         d = os.path.join(SEEDED, name)
         meta = json.load(open(os.path.join(d, "meta.json")))
